@@ -20,9 +20,11 @@ experiments.simulation (Simulation.run) against the Lean model `Opda.Exp` (drive
       * ValueError for malformed bounds.
 (c) Simulation.run on make_damped_linear_sin objectives: documented shapes, ns, echo of the arguments, every point
     inside the bounds, yss == func(xss) recomputed, xs/ys equal to the first trial, yss_cummax equal to the model's
-    running maximum *exactly* (driver op exp.sim on the exact values), y_min <= yss <= y_max up to 1e-9 (a miss is the
-    optimiser's -- the exclusion the property states, counted as skipped -- exactly if the reported y_argmin / y_argmax
-    are genuine local optima of func, i.e. results of the polished optimiser; otherwise it is a violation),
+    running maximum *exactly* (driver op exp.sim on the exact values), y_min <= yss <= y_max up to 1e-9 (when the reported
+    y_argmin / y_argmax are genuine local optima of func, i.e. results of the polished optimiser: an excess in (1e-9, 1e-7]
+    is a violation keyed C20-yss-outside-ymin-ymax-within-optimiser-polish-precision (at most 3 stored per run), a larger
+    excess is a global miss on the multimodal objective -- the exclusion the property states, counted as skipped; when
+    they are not local optima it is an un-keyed violation),
     y_min/y_max equal func at y_argmin/y_argmax, identical
     results and final generator states for generators in identical states, the supplied generator is advanced,
     ValueError for malformed bounds.
@@ -451,6 +453,15 @@ def sim_call(s):
             f"{s['n_samples']}, {s['n_dims']}, f, {s['bounds']!r}, generator=np.random.default_rng({s['seed']}))")
 
 
+RANGE_FINDING = "C20-yss-outside-ymin-ymax-within-optimiser-polish-precision"
+KEYED = {}
+
+
+def range_finding_key(excess, reported_optimum_is_local_optimum):
+    """lead ruling: 1e-9 < excess <= 1e-7 AND no nearby point beats the reported optimum by more than 1e-6"""
+    return RANGE_FINDING if (TOL_RANGE < excess <= 1e-7 and reported_optimum_is_local_optimum) else None
+
+
 def locally_optimal(func, bounds, x, sign, adj_seed):
     """is the reported optimum `x` at least a *local* optimum of `sign * func` (maximum for sign = +1) on the box?
     differential_evolution polishes its result, so what it returns is a local optimum (to about 1e-9 in value) even when it
@@ -545,12 +556,24 @@ def run_sim(rep, rng, drv, tier, simulation):
                 bad("y_min <= yss <= y_max fails by more than 1e-9 and the reported optimum is not even a local optimum of func "
                     "(nearby points beat it by more than 1e-6): it is not what the optimiser located",
                     observed=dict(obs, nearby_points_below_y_min_by=beat_min, nearby_points_above_y_max_by=beat_max))
-            elif max(lo_gap, hi_gap) <= 1e-7:
-                # right basin, value off by a few 1e-9: the polish of differential_evolution stops at a relative decrease of
-                # 2.2e-9 of max(1, |f|), which is the same size as the property's 1e-9 (seen on objectives of tiny magnitude)
-                rep.skip("sim_range_optimiser_imprecise_(excess_below_1e-7)")
             else:
-                rep.skip("sim_range_optimiser_returned_a_local_optimum")
+                for side, gap, ok_side, beat in (("y_min", lo_gap, ok_min, beat_min), ("y_max", hi_gap, ok_max, beat_max)):
+                    if not gap > TOL_RANGE:
+                        continue
+                    key = range_finding_key(gap, ok_side)
+                    if key is not None:
+                        # right basin, value off by a few 1e-9: the polish of differential_evolution stops at a relative
+                        # decrease of 2.2e-9 of max(1, |f|), the same size as the property's 1e-9 (objectives of tiny magnitude)
+                        KEYED[key] = KEYED.get(key, 0) + 1
+                        if KEYED[key] > 3:
+                            rep.count("repeats_of_" + key)
+                        else:
+                            bad(f"yss lies outside [y_min, y_max] on the {side} side by more than 1e-9 (and at most 1e-7) although the "
+                                "reported optimum is a genuine local optimum: the optimiser's polish precision exceeds the property's 1e-9",
+                                observed=dict(obs, excess=gap, nearby_points_beat_reported_optimum_by=beat), finding_key=key)
+                    else:
+                        # excess > 1e-7 at a genuine local optimum: a global miss on the multimodal objective (excluded by the property)
+                        rep.skip("sim_range_optimiser_returned_a_local_optimum")
         # ---- identical results for generators in identical states; the supplied generator is the one that is used
         diff = [k for k in ARRAY_FIELDS if not np.array_equal(getattr(r1, k), getattr(r2, k))]
         if diff or float(r1.y_min) != float(r2.y_min) or float(r1.y_max) != float(r2.y_max):
@@ -635,6 +658,7 @@ def run(seed, tier, replay=None):
         seed, tier = int(replay.get("seed", seed)), replay.get("tier", tier)
     analytic, simulation = load_modules()
     WORST.clear()
+    KEYED.clear()
     rep = C.Report("C20", seed, tier)
     drv = C.Driver()
     run_ellipse(rep, C.rng_for("C20.ellipse", seed), drv, tier, analytic)
